@@ -21,7 +21,10 @@ av_as_dt = z3.Function("av_as_dt", _av, sort_of(Dt))
 av_as_str = z3.Function("av_as_str", _av, _str)
 av_as_tags = z3.Function("av_as_tags", _av, sort_of(TagsD))
 av_as_fields = z3.Function("av_as_fields", _av, sort_of(FldsD))
-CLS = {n: str_const("class:" + n) for n in ("str", "int", "float", "bool", "datetime", "Mapping", "Point")}
+av_truthy = z3.Function("av_truthy", _av, _b)
+av_callable = z3.Function("av_callable", _av, _b)
+ARGN = ("time", "measurement", "tags", "fields", "unset_fields", "unset_tags")
+CLS = {n: str_const("class:" + n) for n in ("str", "int", "float", "bool", "datetime", "Mapping", "Point", "Iterable")}
 
 
 def isinst(v, name):
@@ -47,6 +50,11 @@ def valid_fields(v):
     return z3.And(isinst(v, "Mapping"), forall([k], z3.Implies(z3.Select(av_keys(v), k), z3.And(isinst(k, "str"), z3.Or(is_none(val), num))), patterns=[z3.Select(av_keys(v), k)]))
 
 
+def _mapping_is_iterable():
+    v = z3.Const("ax_any_v", _av)
+    return forall([v], z3.Implies(av_isinst(v, CLS["Mapping"]), av_isinst(v, CLS["Iterable"])), patterns=[av_isinst(v, CLS["Mapping"])])
+
+
 def any_axioms():
     d = z3.Const("ax_d", sort_of(Dt))
     s_ = z3.Const("ax_s", _str)
@@ -54,7 +62,8 @@ def any_axioms():
         forall([d], z3.And(isinst(av_of_dt(d), "datetime"), av_as_dt(av_of_dt(d)) == d, av_of_dt(d) != AV_NONE), patterns=[av_of_dt(d)]),
         forall([s_], z3.And(isinst(av_of_str(s_), "str"), av_as_str(av_of_str(s_)) == s_, av_of_str(s_) != AV_NONE), patterns=[av_of_str(s_)]),
         z3.Distinct(*CLS.values()),
-    ] + [z3.Not(av_isinst(AV_NONE, c)) for c in CLS.values()]
+        forall([d], z3.BoolVal(True)),
+    ] + [z3.Not(av_isinst(AV_NONE, c)) for c in CLS.values()] + [_mapping_is_iterable()]
 
 
 S.THEORIES["any"] = any_axioms()
@@ -114,7 +123,7 @@ def _b_all(self, node, st):
     if src.ty == SAny:
         dom, elem = src.t, x
     elif src.ty == AnyV:
-        self.hazard("TypeError", isinst(src.t, "Mapping"), node, "iteration over a non-mapping")
+        self.hazard("TypeError", isinst(src.t, "Iterable"), node, "iteration over a non-iterable")
         dom, elem = av_keys(src.t), x
     elif src.ty == AVValues:
         dom, elem = av_keys(src.t), av_get(src.t, x)
@@ -148,3 +157,21 @@ Exec.coercions.setdefault("Dt", {})["AnyV"] = _conv("time", lambda t: isinst(t, 
 Exec.coercions.setdefault("Str", {})["AnyV"] = _conv("measurement", lambda t: isinst(t, "str"), lambda t: Val(TStr, av_as_str(t)))
 Exec.coercions.setdefault(TagsD.key, {})["AnyV"] = _conv("tags", valid_tags, lambda t: Val(TagsD, av_as_tags(t)))
 Exec.coercions.setdefault(FldsD.key, {})["AnyV"] = _conv("fields", valid_fields, lambda t: Val(FldsD, av_as_fields(t)))
+
+
+def static_args_ok(c):
+    """what _generate_updater has checked before returning the closure"""
+    g = lambda n: getattr(c, n).t
+    tr, ca = av_truthy, av_callable
+    x = z3.Const(fresh_name("x"), _av)
+    strs = lambda v: z3.Or(isinst(v, "str"), z3.And(isinst(v, "Iterable"), forall([x], z3.Implies(z3.Select(av_keys(v), x), isinst(x, "str")), patterns=[z3.Select(av_keys(v), x)])))
+    return z3.And(
+        z3.Or(*[tr(g(n)) for n in ARGN]),
+        z3.Implies(z3.And(tr(g("time")), z3.Not(ca(g("time")))), isinst(g("time"), "datetime")),
+        z3.Implies(z3.And(tr(g("measurement")), z3.Not(ca(g("measurement")))), isinst(g("measurement"), "str")),
+        z3.Implies(z3.And(tr(g("tags")), z3.Not(ca(g("tags")))), valid_tags(g("tags"))),
+        z3.Implies(z3.And(tr(g("fields")), z3.Not(ca(g("fields")))), valid_fields(g("fields"))),
+        z3.Implies(tr(g("unset_tags")), strs(g("unset_tags"))),
+        z3.Implies(tr(g("unset_fields")), strs(g("unset_fields"))))
+
+
